@@ -114,6 +114,7 @@ type Runner struct {
 	ExtraGen   []string // extra args for wire gen (before patterns)
 	Cmd        string   // wire subcommand (default gen)
 
+	Deadline      time.Time // internal deadline: batches not started by then are not run (exhaustive=false, exit 0)
 	MaxCandidates int // stop starting new batches after this many cases with violation candidates (0 = never)
 	Candidates    int
 	Skipped       int
@@ -193,6 +194,9 @@ func (rn *Runner) RunAll(cases []*Case) []*Result {
 func (rn *Runner) stopped() bool {
 	rn.mu.Lock()
 	defer rn.mu.Unlock()
+	if !rn.Deadline.IsZero() && time.Now().After(rn.Deadline) {
+		return true
+	}
 	return rn.MaxCandidates > 0 && rn.Candidates >= rn.MaxCandidates
 }
 
